@@ -26,7 +26,7 @@ def tokStr (k : Tok) : String :=
   a ++ " " ++ b ++ " " ++ c
 
 def verdictStr : Verdict → String
-  | .admit => "admit"
+  | .admitted => "admit"
   | .rlMinute r => s!"rl-minute retry={r}"
   | .rlHour r => s!"rl-hour retry={r}"
   | .quotaHour => "q-hour"
@@ -44,7 +44,7 @@ def qtBurst : Nat → QT → Int → Nat × Nat × Nat → QT × (Nat × Nat × 
     qtBurst k r.1 now (match r.2 with | .ok => (a + 1, h, d) | .hour => (a, h + 1, d) | .day => (a, h, d + 1))
 
 structure Tally where
-  admit : Nat := 0
+  adm : Nat := 0
   rlm : Nat := 0
   rlh : Nat := 0
   qh : Nat := 0
@@ -55,7 +55,7 @@ def mBurst : Nat → Mgr → Int → Int → Tally → Mgr × Tally
   | k + 1, m, t, now, c =>
     let r := query m t now
     mBurst k r.1 t now (match r.2 with
-      | .admit => { c with admit := c.admit + 1 }
+      | .admitted => { c with adm := c.adm + 1 }
       | .rlMinute _ => { c with rlm := c.rlm + 1 }
       | .rlHour _ => { c with rlh := c.rlh + 1 }
       | .quotaHour => { c with qh := c.qh + 1 }
@@ -153,7 +153,7 @@ def stepC28 (s : DS) (fs : List String) : DS × String :=
       let r := mBurst k s.m t now {}
       let c := r.2
       ({ s with m := r.1 },
-        s!"admit={c.admit} rlm={c.rlm} rlh={c.rlh} qh={c.qh} qd={c.qd} " ++ tokStr (r.1.get t))
+        s!"admit={c.adm} rlm={c.rlm} rlh={c.rlh} qh={c.qh} qd={c.qd} " ++ tokStr (r.1.get t))
     | _, _, _ => (s, "bad-op")
   | ["m.usage", t, now] =>
     match int? t, int? now with
